@@ -1,7 +1,7 @@
 ------------------------------- MODULE CodecBuild -------------------------------
 (* Fine-grained model of codec construction: Plenc.CodecForTypeRegistry,           *)
 (* BuildStructCodec and BuildMapCodec, one action per segment between two verif     *)
-(* yield hooks ("load", "wrap", "field", "fieldret", "flush", "store").  Several    *)
+(* yield hooks ("load", "wrap", "mapkey", "mapval", "field", "fieldret", "flush", "flushed", "store", "stored").  Several    *)
 (* processes request codecs for related types against one shared registry at the    *)
 (* same time.                                                                       *)
 (*                                                                                  *)
@@ -138,8 +138,13 @@ Flush(p) == LET f == Top(p) IN
   /\ IF f.ov = <<>> /\ Publish = "pending"
        THEN reg' = FlushInto(reg, pending[p]) /\ pending' = [pending EXCEPT ![p] = <<>>]
        ELSE UNCHANGED <<reg, pending>>
-  /\ stack' = SetTop(p, [f EXCEPT !.pc = "store"])
+  /\ stack' = SetTop(p, [f EXCEPT !.pc = "flushed"])
   /\ UNCHANGED <<heap, ret, phase, result, torn>>
+\* hook "flushed": what was built on the way is public now, the struct codec itself is not yet; BuildStructCodec returns it
+Flushed(p) == LET f == Top(p) IN
+  /\ phase[p] = "build" /\ f.pc = "flushed"
+  /\ stack' = SetTop(p, [f EXCEPT !.pc = "store"])
+  /\ UNCHANGED <<reg, heap, ret, phase, result, torn, pending>>
 \* hook "store": registry.StoreOrSwap on the registry this call was given
 Store(p) == LET f == Top(p) IN
   /\ phase[p] = "build" /\ f.pc = "store"
@@ -148,11 +153,16 @@ Store(p) == LET f == Top(p) IN
             LET q == Lookup(p, f.ov, f.typ) IN
             /\ pending' = [pending EXCEPT ![p] = IF q = 0 THEN Append(@, <<f.typ, f.cid>>) ELSE @]
             /\ reg' = reg
-            /\ Return(p, IF q = 0 THEN f.cid ELSE q)
+            /\ stack' = SetTop(p, [f EXCEPT !.pc = "stored", !.cid = IF q = 0 THEN f.cid ELSE q])
        ELSE /\ reg' = IF reg[f.typ] = 0 THEN [reg EXCEPT ![f.typ] = f.cid] ELSE reg
             /\ pending' = pending
-            /\ Return(p, IF reg[f.typ] = 0 THEN f.cid ELSE reg[f.typ])
-  /\ UNCHANGED <<heap, torn>>
+            /\ stack' = SetTop(p, [f EXCEPT !.pc = "stored", !.cid = IF reg[f.typ] = 0 THEN f.cid ELSE reg[f.typ]])
+  /\ UNCHANGED <<heap, ret, phase, result, torn>>
+\* hook "stored": the codec (or the one that won the race) is in the registry; the request returns it
+Stored(p) == LET f == Top(p) IN
+  /\ phase[p] = "build" /\ f.pc = "stored"
+  /\ Return(p, f.cid)
+  /\ UNCHANGED <<reg, heap, torn, pending>>
 
 RECURSIVE Reach(_, _)
 Reach(todo, seen) == IF todo = {} THEN seen
@@ -169,7 +179,7 @@ Use(p) ==
   /\ torn' = (torn \/ (result[p] > 0 /\ \E c \in Reach({result[p]}, {}) : Incomplete(c)))
   /\ UNCHANGED <<reg, heap, stack, ret, result, pending>>
 
-Step(p) == Load(p) \/ Wrap(p) \/ MapKey(p) \/ MapVal(p) \/ Field(p) \/ FieldRet(p) \/ Flush(p) \/ Store(p)
+Step(p) == Load(p) \/ Wrap(p) \/ MapKey(p) \/ MapVal(p) \/ Field(p) \/ FieldRet(p) \/ Flush(p) \/ Flushed(p) \/ Store(p) \/ Stored(p)
 Next == \E p \in Procs : Step(p) \/ Use(p)
 Spec == Init /\ [][Next]_vars
 FairSpec == Spec /\ \A p \in Procs : WF_vars(Step(p) \/ Use(p))
